@@ -104,7 +104,8 @@ end Dev
 
 /-! ### allocator (dev/alloc.rs) -/
 
-/-- `free_clusters(host_cluster, count)`; `decrement().unwrap()` panics on 0. -/
+/-- `free_clusters(host_cluster, count)`; decrementing a refcount that is already 0 is
+    reported as an error (`Err invalid`), the state is left as it was. -/
 def freeClusters : Nat → Nat → Bool → M Unit
   | _, 0, _ => M.pure ()
   | host, n + 1, firstZero => fun d =>
@@ -114,7 +115,7 @@ def freeClusters : Nat → Nat → Bool → M Unit
     let e := if rtIdx < d.rtLen then d.rt.get rtIdx else 0#64
     if RT.isZero e then (d, .err .other) else     -- no refblock: outside the modelled (valid-image) domain
     let v := d.rc.get c
-    if v = 0 then (d, .panic "alloc.rs:free_clusters:decrement-unwrap") else
+    if v = 0 then (d, .err .invalid) else
     let d1 := { d with rc := d.rc.set c (v - 1), needFlush := true }
     let (d2, fz) := if firstZero ∧ v - 1 = 0 then ({ d1 with hint := min d1.hint host }, false) else (d1, firstZero)
     freeClusters (host + i.clusterSize) n fz d2
